@@ -16,7 +16,10 @@ BATTERIES = {
     "C05": [("c05_fixed_rank.py", "{seed} {n}", r"mismatches (\d+)", (100, 800))],
     "C07": [("c07_tangent.py", "{n} {seed}", r"mismatches: (\d+)", (80, 500))],
     "C15": [("c15_logic.py", "{n} {seed}", r"mismatches: (\d+)", (60, 500))],
-    "C09": [("c09_sobol.py", "{seed} {n}", r"mismatches (\d+)", (80, 600))],
+    "C09": [("c09_sobol.py", "{seed} {n}", r"mismatches (\d+)", (80, 600)),
+            ("c09_dimdist_mask.py", "{seed} {n}", r"mismatches (\d+)", (40, 300))],
+    "C13": [("c13_orth_full.py", "{n} {seed}", r"mismatches: (\d+)", (150, 1500))],
+    "C18": [("c18_batch_scalar.py", "{n} {seed}", r"mismatches: (\d+)", (100, 800))],
 }
 
 
